@@ -15,26 +15,33 @@ void harness(void) {
 	VF_NONDET(size_t, n);
 	VF_NONDET_BYTES(data, VF_N);
 	VF_ASSUME(n <= VF_N);
+#ifdef VF_PART_BUFFER
+#define VF_TBL_ASSERT(c, m)	do { } while (0)
+#define VF_BUF_ASSERT(c, m)	VF_ASSERT(c, m)
+#else
+#define VF_TBL_ASSERT(c, m)	VF_ASSERT(c, m)
+#define VF_BUF_ASSERT(c, m)	do { } while (0)
+#endif
 #ifdef KIND_NORMAL
-	VF_ASSERT(T256[idx] == vf_crc_normal_byte(POLY, 0, idx), "table256[i] == remainder of byte i (MSB first)");
-	VF_ASSERT(crc32_normal8(T256, crc0, &byte, 1) == vf_crc_normal_byte(POLY, crc0, byte), "8-bit table step == bitwise step");
-	VF_ASSERT(crc32_normal4(T256, crc0, &byte, 1) == vf_crc_normal_byte(POLY, crc0, byte), "4-bit table step == bitwise step");
+	VF_TBL_ASSERT(T256[idx] == vf_crc_normal_byte(POLY, 0, idx), "table256[i] == remainder of byte i (MSB first)");
+	VF_TBL_ASSERT(crc32_normal8(T256, crc0, &byte, 1) == vf_crc_normal_byte(POLY, crc0, byte), "8-bit table step == bitwise step");
+	VF_TBL_ASSERT(crc32_normal4(T256, crc0, &byte, 1) == vf_crc_normal_byte(POLY, crc0, byte), "4-bit table step == bitwise step");
 	uint32_t spec = crc0;
 	for (size_t i = 0; i < n; i ++)
 		spec = vf_crc_normal_byte(POLY, spec, data.b[i]);
-	VF_ASSERT(crc32_normal(T256, crc0, data.b, n) == spec, "crc32_normal(buffer) == bitwise CRC");
-	VF_ASSERT(crc32_normal8(T256, crc0, data.b, n) == spec, "crc32_normal8(buffer) == bitwise CRC");
+	VF_BUF_ASSERT(crc32_normal(T256, crc0, data.b, n) == spec, "crc32_normal(buffer) == bitwise CRC");
+	VF_BUF_ASSERT(crc32_normal8(T256, crc0, data.b, n) == spec, "crc32_normal8(buffer) == bitwise CRC");
 #else
 	const uint32_t rpoly = vf_reflect32(POLY);
-	VF_ASSERT(T256[idx] == vf_crc_reflect_byte(rpoly, 0, idx), "table256[i] == remainder of byte i (LSB first)");
-	VF_ASSERT(T16[idx & 15] == T256[(idx & 15) << 4], "table16[i] == table256[16 i]");
-	VF_ASSERT(crc32_reflect8(T256, crc0, &byte, 1) == vf_crc_reflect_byte(rpoly, crc0, byte), "8-bit table step == bitwise step");
-	VF_ASSERT(crc32_reflect4(T16, crc0, &byte, 1) == vf_crc_reflect_byte(rpoly, crc0, byte), "4-bit table step == bitwise step");
+	VF_TBL_ASSERT(T256[idx] == vf_crc_reflect_byte(rpoly, 0, idx), "table256[i] == remainder of byte i (LSB first)");
+	VF_TBL_ASSERT(T16[idx & 15] == T256[(idx & 15) << 4], "table16[i] == table256[16 i]");
+	VF_TBL_ASSERT(crc32_reflect8(T256, crc0, &byte, 1) == vf_crc_reflect_byte(rpoly, crc0, byte), "8-bit table step == bitwise step");
+	VF_TBL_ASSERT(crc32_reflect4(T16, crc0, &byte, 1) == vf_crc_reflect_byte(rpoly, crc0, byte), "4-bit table step == bitwise step");
 	uint32_t spec = crc0;
 	for (size_t i = 0; i < n; i ++)
 		spec = vf_crc_reflect_byte(rpoly, spec, data.b[i]);
-	VF_ASSERT(crc32_reflect(T256, T16, crc0, data.b, n) == spec, "crc32_reflect(buffer) == bitwise CRC");
-	VF_ASSERT(crc32_reflect8(T256, crc0, data.b, n) == spec, "crc32_reflect8(buffer) == bitwise CRC");
+	VF_BUF_ASSERT(crc32_reflect(T256, T16, crc0, data.b, n) == spec, "crc32_reflect(buffer) == bitwise CRC");
+	VF_BUF_ASSERT(crc32_reflect8(T256, crc0, data.b, n) == spec, "crc32_reflect8(buffer) == bitwise CRC");
 #endif
 	VF_CANARY("crc32 end");
 }
